@@ -20,6 +20,7 @@ import (
 	"context"
 	"fmt"
 	"math"
+	"os"
 	"reflect"
 	"regexp"
 	"runtime/debug"
@@ -746,6 +747,291 @@ func describe(c Case) string {
 	return fmt.Sprintf("{engine=%s style=%s params=%q results=%q%s}", c.Engine, c.Style, c.P, c.R, g)
 }
 
+// ---------------------------------------------------------------- concurrent callers
+
+// ConcCase: G goroutines, each with its own anonymous instance of one compiled guest, in one
+// runtime sharing one host module, call echo N times each. Argument tuples encode
+// (goroutine, iteration) so that every tuple is unique; the host function looks the tuple up
+// and returns the results that belong to it.
+type ConcCase struct {
+	Conc   bool   `json:"concurrent"` // marks the case form in replay files
+	Engine string `json:"engine"`
+	Style  string `json:"style"`
+	P      string `json:"params"`
+	R      string `json:"results"`
+	PGo    string `json:"params_go"`
+	RGo    string `json:"results_go"`
+	G      int    `json:"goroutines"`
+	N      int    `json:"calls"`
+	Seed   uint64 `json:"seed"`
+}
+
+func mix(a ...uint64) uint64 {
+	x := uint64(0x9e3779b97f4a7c15)
+	for _, v := range a {
+		x ^= v + 0x9e3779b97f4a7c15 + x<<6 + x>>2
+		x *= 0xbf58476d1ce4e5b9
+		x ^= x >> 29
+	}
+	return x
+}
+
+// concValue: value of position i (kind 0 = param, 1 = result) of call n of goroutine g.
+// Position 0 of the parameters carries (g, n) literally so that tuples are unique by construction.
+func concValue(c ConcCase, g, n, i, kind int, t byte) uint64 {
+	v := mix(c.Seed, uint64(g), uint64(n), uint64(i), uint64(kind))
+	if kind == 0 && i == 0 {
+		v = v&^0xffffff | uint64(g)<<20 | uint64(n)&0xfffff // 24 low bits: goroutine and iteration
+	}
+	if t == 'f' && isSNaN32(v) { // keep float32 values off the (separately probed) signalling NaN class
+		v |= 0x00400000
+	}
+	return canon(t, v)
+}
+
+func tupleKey(v []uint64) string {
+	var sb strings.Builder
+	for _, x := range v {
+		fmt.Fprintf(&sb, "%x,", x)
+	}
+	return sb.String()
+}
+
+type concEntry struct {
+	g, n int
+	res  []uint64
+	seen int
+}
+
+type concHost struct {
+	c        ConcCase
+	mu       sync.Mutex
+	table    map[string]*concEntry
+	problems []string
+}
+
+func (h *concHost) problem(f string, a ...any) {
+	h.mu.Lock()
+	if len(h.problems) < 6 {
+		h.problems = append(h.problems, fmt.Sprintf(f, a...))
+	}
+	h.mu.Unlock()
+}
+
+// lookup records the tuple the host function received and returns the results that belong to it.
+func (h *concHost) lookup(got []uint64) []uint64 {
+	h.mu.Lock()
+	e := h.table[tupleKey(got)]
+	if e != nil {
+		e.seen++
+	}
+	h.mu.Unlock()
+	if e == nil {
+		if len(h.c.P) > 0 {
+			h.problem("the host function received %s, a tuple no caller passed (every caller passes tuples whose first value encodes its goroutine and iteration)", fmtVals(h.c.P, got))
+		}
+		return make([]uint64, len(h.c.R))
+	}
+	return e.res
+}
+
+func (h *concHost) stackFn(stack []uint64) {
+	got := make([]uint64, len(h.c.P))
+	for i := range got {
+		got[i] = canon(h.c.P[i], stack[i])
+	}
+	copy(stack, h.lookup(got))
+}
+
+func (h *concHost) reflectFn() any {
+	c := h.c
+	var in, out []reflect.Type
+	skip := 0
+	switch c.Style {
+	case "reflect-ctx":
+		in, skip = append(in, ctxType), 1
+	case "reflect-mod":
+		in, skip = append(in, ctxType, modType), 2
+	}
+	for i := range c.P {
+		in = append(in, goType(c.P[i], sel(c.PGo, i)))
+	}
+	for i := range c.R {
+		out = append(out, goType(c.R[i], sel(c.RGo, i)))
+	}
+	return reflect.MakeFunc(reflect.FuncOf(in, out, false), func(args []reflect.Value) []reflect.Value {
+		got := make([]uint64, len(c.P))
+		for i := range got {
+			got[i] = bitsOf(args[skip+i])
+		}
+		r := h.lookup(got)
+		res := make([]reflect.Value, len(out))
+		for i := range out {
+			res[i] = valueOf(out[i], r[i])
+		}
+		return res
+	}).Interface()
+}
+
+func (c ConcCase) describe() string {
+	return fmt.Sprintf("{engine=%s style=%s params=%q results=%q go-types(%s/%s) goroutines=%d calls=%d}", c.Engine, c.Style, c.P, c.R, c.PGo, c.RGo, c.G, c.N)
+}
+
+func validConc(c ConcCase) bool {
+	return valid(Case{Engine: c.Engine, Style: c.Style, P: c.P, R: c.R}) && c.G >= 1 && c.G <= 64 && c.N >= 1 && c.N <= 1<<20
+}
+
+func runConc(c ConcCase) (f *failure) {
+	if !validConc(c) {
+		return nil
+	}
+	defer func() {
+		if r := recover(); r != nil {
+			f = failf("%s: panic escaped wazero's API: %v\n%s", c.describe(), r, trimStack(debug.Stack()))
+		}
+	}()
+	rt := wazero.NewRuntimeWithConfig(bg, wz.Config(c.Engine))
+	defer rt.Close(bg)
+	h := &concHost{c: c, table: map[string]*concEntry{}}
+	args := make([][][]uint64, c.G)
+	for g := 0; g < c.G; g++ {
+		args[g] = make([][]uint64, c.N)
+		for n := 0; n < c.N; n++ {
+			a := make([]uint64, len(c.P))
+			for i := range a {
+				a[i] = concValue(c, g, n, i, 0, c.P[i])
+			}
+			r := make([]uint64, len(c.R))
+			for i := range r {
+				r[i] = concValue(c, g, n, i, 1, c.R[i])
+			}
+			args[g][n] = a
+			h.table[tupleKey(a)] = &concEntry{g: g, n: n, res: r}
+		}
+	}
+	fb := rt.NewHostModuleBuilder("host").NewFunctionBuilder()
+	switch c.Style {
+	case "gofunc":
+		fb = fb.WithGoFunction(api.GoFunc(func(_ context.Context, stack []uint64) { h.stackFn(stack) }), apiTypes(c.P), apiTypes(c.R))
+	case "gomodfunc":
+		fb = fb.WithGoModuleFunction(api.GoModuleFunc(func(_ context.Context, _ api.Module, stack []uint64) { h.stackFn(stack) }), apiTypes(c.P), apiTypes(c.R))
+	default:
+		fb = fb.WithFunc(h.reflectFn())
+	}
+	if _, err := fb.Export("f").Instantiate(bg); err != nil {
+		return failf("%s: the builder rejected the host function: %v", c.describe(), err)
+	}
+	cm, err := rt.CompileModule(bg, buildGuest(Case{P: c.P, R: c.R}))
+	if err != nil {
+		return failf("%s: guest module rejected: %v", c.describe(), firstLine(err))
+	}
+	fns := make([]api.Function, c.G)
+	for g := range fns {
+		mod, err := rt.InstantiateModule(bg, cm, wazero.NewModuleConfig().WithName(""))
+		if err != nil {
+			return failf("%s: instantiating guest %d failed: %v", c.describe(), g, firstLine(err))
+		}
+		fns[g] = mod.ExportedFunction("echo") // each api.Function is used by one goroutine only
+	}
+	msgs := make([]string, c.G)
+	start := make(chan struct{})
+	var wg sync.WaitGroup
+	for g := 0; g < c.G; g++ {
+		wg.Add(1)
+		go func(g int) {
+			defer wg.Done()
+			defer func() {
+				if r := recover(); r != nil && msgs[g] == "" {
+					msgs[g] = fmt.Sprintf("goroutine %d: panic escaped wazero's API: %v", g, r)
+				}
+			}()
+			nres := len(c.R)
+			stack := make([]uint64, len(c.P)+nres+1)
+			<-start
+			for n := 0; n < c.N; n++ {
+				a := args[g][n]
+				want := h.table[tupleKey(a)].res // read-only after setup
+				var res []uint64
+				var err error
+				if (n+g)%2 == 0 {
+					res, err = fns[g].Call(bg, a...)
+				} else {
+					copy(stack, a)
+					err = fns[g].CallWithStack(bg, stack)
+					res = stack[:nres]
+				}
+				if err != nil {
+					msgs[g] = fmt.Sprintf("goroutine %d, call %d failed: %v", g, n, firstLine(err))
+					return
+				}
+				for i := range want {
+					if i >= len(res) || canon(c.R[i], res[i]) != want[i] {
+						msgs[g] = fmt.Sprintf("goroutine %d, call %d: passed %s and got back %s, but the results that belong to this call are %s (each caller has its own guest instance; %d goroutines call the same host function)",
+							g, n, fmtVals(c.P, a), fmtVals(c.R, res), fmtVals(c.R, want), c.G)
+						return
+					}
+				}
+			}
+		}(g)
+	}
+	close(start)
+	wg.Wait()
+	if len(h.problems) > 0 {
+		return failf("%s: %s", c.describe(), h.problems[0])
+	}
+	for _, m := range msgs {
+		if m != "" {
+			return failf("%s: %s", c.describe(), m)
+		}
+	}
+	if len(c.P) > 0 {
+		for _, e := range h.table {
+			if e.seen != 1 {
+				return failf("%s: the tuple of goroutine %d, call %d was received %d times by the host function, expected once", c.describe(), e.g, e.n, e.seen)
+			}
+		}
+	}
+	return nil
+}
+
+func genConc(t *rapid.T) ConcCase {
+	c := ConcCase{Conc: true, Engine: rapid.SampledFrom(wz.Engines).Draw(t, "engine"), Style: rapid.SampledFrom(styles).Draw(t, "style")}
+	np := rapid.IntRange(1, 10).Draw(t, "np")
+	if rapid.IntRange(0, 9).Draw(t, "np-zero") == 0 {
+		np = 0
+	}
+	nr := rapid.IntRange(0, 5).Draw(t, "nr")
+	c.P, c.R = genTypes(t, np, "p"), genTypes(t, nr, "r")
+	c.PGo, c.RGo = genGo(t, np, "p"), genGo(t, nr, "r")
+	c.G = rapid.IntRange(2, 8).Draw(t, "goroutines")
+	c.N = rapid.SampledFrom([]int{50, 200, 200, 600}).Draw(t, "calls")
+	c.Seed = rapid.Uint64().Draw(t, "seed")
+	return c
+}
+
+// TestConcurrentCallers: also run under the race detector by the driver (small batch).
+func TestConcurrentCallers(t *testing.T) {
+	if evid.ReplayPath() != "" {
+		t.Skip()
+	}
+	n := evid.Scale(600, 40000)
+	if os.Getenv("VERIF_RACE") != "" {
+		n = 30
+		if evid.Thorough() {
+			n = 150
+		}
+	}
+	evid.Check(t, "concurrent-callers", n, func(t *rapid.T) {
+		c := genConc(t)
+		evid.Journal(c)
+		if f := runConc(c); f != nil {
+			evid.Fail(t, c, "%s", f.msg)
+		}
+		evid.Case(evid.Hash64(fmt.Sprintf("%+v", c)), len(c.P) > 0, "concurrent", "concurrent-style-"+c.Style, "concurrent-"+c.Engine)
+		evid.Sample("concurrent", 1, c)
+	})
+}
+
 // ---------------------------------------------------------------- known-defect probes
 
 var (
@@ -1102,6 +1388,17 @@ func TestReplay(t *testing.T) {
 	p := evid.ReplayPath()
 	if p == "" {
 		t.Skip()
+	}
+	var cc ConcCase
+	if _, err := evid.LoadReplay(p, &cc); err == nil && cc.Conc {
+		// a concurrent failure depends on the schedule: try the recorded case several times
+		for i := 0; i < 8; i++ {
+			if f := runConc(cc); f != nil {
+				evid.Violation("replay", cc, "%s", f.msg)
+				t.Fatal(f.msg)
+			}
+		}
+		return
 	}
 	var c Case
 	if _, err := evid.LoadReplay(p, &c); err != nil {
